@@ -41,10 +41,15 @@ def cases(tier, seed, shard, nshards):
             yield {"kind": "groupby", "gb": gb, "exc": rng.choice(EXC), "phase": rng.choice(["call", "await"]),
                    "fnfl": rng.choice(FN_FL)}
     n = N_SPECS[tier] // nshards
-    names = gen.ITER_TOOL_NAMES + gen.AGG_NAMES
+    names = gen.ITER_TOOL_NAMES + gen.AGG_NAMES + ["tee"]
     for i in range(n):
         name = names[i % len(names)]
-        if name in gen.AGG_NAMES:
+        if name == "tee":
+            nchild = rng.choice([1, 2, 3])
+            ks = gen.keys_seq(rng, 4)
+            spec = {"tool": "tee", "srcs": [ks], "fns": [], "params": {"n": nchild},
+                    "ops": [rng.randrange(nchild) for _ in range(rng.randint(1, 2 * len(ks) + 3))]}
+        elif name in gen.AGG_NAMES:
             spec = gen.agg_spec(rng, name, maxlen=4)
             if spec.get("raw"):
                 # keep the fault the only source of exceptions: Items only
@@ -113,14 +118,17 @@ def run_case(case, stats: Counter):
     fnfl = case.get("fnfl", "def")
     gen_twin = flav[0].endswith("gen")
     steps = spec.get("steps")
-    base = run_sync_side(spec, steps=steps, log=False, gen_twin=gen_twin)
+    ops = spec.get("ops")
+    base = run_sync_side(spec, steps=steps, log=False, gen_twin=gen_twin, ops=ops)
     probes = []
     if tool != "iter_sentinel":
         for s, st in enumerate(base.srcs):
             if st.sid == "outer":
                 probes.append(("outer", 0, st.uses))
             else:
-                probes.append(("src", s, st.uses))
+                # faults are placed up to and including the first end-of-source check; later uses are re-polls of
+                # an exhausted source whose number and timing legitimately differ (see C05)
+                probes.append(("src", s, min(st.uses, len(st.items) + 1)))
     for i, fs in enumerate(base.fns):
         if fs is not None:
             probes.append(("fn", i, fs.uses))
@@ -135,10 +143,18 @@ def run_case(case, stats: Counter):
             evals += 1
             exc_s = exc_type("injected")
             sync = run_sync_side(spec, fault=Fault(kind, index, k, exc_s, case["phase"]), steps=steps, log=False,
-                                 gen_twin=gen_twin)
+                                 gen_twin=gen_twin, ops=ops)
             exc_a = exc_type("injected")
             asy = run_async_side(spec, flavours=flav, fn_flavours=[fnfl] * nfn, steps=steps, log=False,
-                                 fault=Fault(kind, index, k, exc_a, case["phase"]), outer_flavour=outer)
+                                 fault=Fault(kind, index, k, exc_a, case["phase"]), outer_flavour=outer, ops=ops)
+            if tool == "tee":
+                # judged up to and including the first failure seen by a consumer (what happens when a tee is
+                # used further after its source failed is not part of the property)
+                for side in (sync, asy):
+                    cut = next((n for n, (_, ev) in enumerate(side.out) if isinstance(ev, tuple) and ev and ev[0] == "raise"), None)
+                    if cut is not None:
+                        side.term = side.out[cut][1]
+                        side.out = side.out[:cut]
             stats["injections"] += 1
             stats[f"inj_{kind}"] += 1
             raised = len(sync.term) == 3 and sync.term[0] == "raise" and sync.term[2]
@@ -160,7 +176,7 @@ def run_case(case, stats: Counter):
                 problem = "items"
             elif tuple(sync.term) != tuple(asy.term):
                 problem = "termination"
-            elif probe.use_after_fault:
+            elif probe.use_after_fault and tool != "tee":
                 problem = "reuse"
             if problem:
                 key = classify(spec, kind, problem, sync, asy, case)
